@@ -278,7 +278,7 @@ pub fn run(ctx: &mut Ctx, _name: &str) {
         ctx.count("line-of-exactly-max-bytes");
         emit_file(ctx, &exact, false);
     }
-    let n = if ctx.thorough { 20000 } else { 1500 };
+    let n = if ctx.thorough { 60000 } else { 1500 };
     for i in 0..n {
         let f = gen_file(ctx);
         emit_file(ctx, &f, i % 10 == 0);
